@@ -18,7 +18,8 @@ EXPLANATION = (
     '(S7), the RTL structure depends on the seed and constructor state only '
     '(S8), custom from_config forwards every parameter its config carries (S9). '
     'Keras (de)serialisation itself and weight files are the trusted base.'
-    " Also decided: from_config / deserialize helpers never mutate the caller's dict (S12); constraints that come back from JSON as lists are converted before they are used as dictionary keys or set members (T4); the premade dtype argument survives the round trip (S9, attribute provenance through a renamed attribute).")
+    " Also decided: from_config / deserialize helpers never mutate the caller's dict (S12); constraints that come back from JSON as lists are converted before they are used as dictionary keys or set members (T4); the premade dtype argument survives the round trip (S9, attribute provenance through a renamed attribute)."
+    ' A constraint tuple is only looked up among tuples (T4 membership); after a method normalised self.x into a local, no call receives the raw attribute (X8).')
 ASSUMPTIONS = [
     'keras (de)serialize / get / custom_object_scope behave as documented',
     'cls(**config) is how Keras rebuilds an object without a custom from_config',
